@@ -233,3 +233,60 @@ pub mod sync;
 pub mod timer;
 
 mod utils;
+
+/// Hooks for the external verification harness. Only compiled with
+/// `--cfg futures_intrusive_verif`; read-only, no effect on behavior.
+#[cfg(futures_intrusive_verif)]
+pub mod verif {
+    pub use crate::intrusive_double_linked_list::{LinkedList, ListNode};
+    pub use crate::intrusive_pairing_heap::{HeapNode, PairingHeap};
+    pub use crate::noop_lock::NoopLock;
+    use core::task::Waker;
+
+    /// One wait queue entry as reported by the `verif_snapshot` methods
+    #[derive(Debug)]
+    pub struct Entry<'a> {
+        /// Index of the queue inside the primitive. Entries reported by the
+        /// backward walk of a list carry `queue | 0x80`.
+        pub queue: u8,
+        /// Address of the intrusive node
+        pub addr: usize,
+        /// Numeric poll state of the entry
+        pub state: u8,
+        /// The stored waker
+        pub waker: Option<&'a Waker>,
+        /// Entry specific number (required permits, expiry, state id,
+        /// whether a value is parked)
+        pub num: u64,
+        /// Raw link fields of the node. List: prev, next.
+        /// Heap: parent, prev, next, first_child. 0 means `None`.
+        pub links: [usize; 4],
+    }
+
+    /// An item reported by the `verif_snapshot` methods
+    #[derive(Debug)]
+    pub enum Item<'a> {
+        /// A scalar of the internal state
+        Scalar(&'static str, u64),
+        /// A wait queue entry
+        Entry(Entry<'a>),
+    }
+
+    pub(crate) fn list_links<T>(node: &ListNode<T>) -> [usize; 4] {
+        [
+            node.verif_prev().map_or(0, |p| p as usize),
+            node.verif_next().map_or(0, |p| p as usize),
+            0,
+            0,
+        ]
+    }
+
+    pub(crate) fn heap_links<T>(node: &HeapNode<T>) -> [usize; 4] {
+        [
+            node.verif_parent().map_or(0, |p| p as usize),
+            node.verif_prev().map_or(0, |p| p as usize),
+            node.verif_next().map_or(0, |p| p as usize),
+            node.verif_first_child().map_or(0, |p| p as usize),
+        ]
+    }
+}
